@@ -31,6 +31,28 @@ Proof. exact queue_get_never_empty. Qed.
 Theorem C20_queue_fifo : forall es, exists rest, putlog (qrun es) = got (qrun es) ++ rest.
 Proof. exact queue_fifo. Qed.
 
+(* ---- the same for the write path as TRANSLATED from hpfeeds/blocking/reactor.py on every run (harness/pytrans5.py ->
+   ReactorGen.v; ReactorGenEq.v): what sock.send / get_nowait do on a call is an oracle argument.  No axioms. *)
+From HP Require Import PyReactor ReactorGen ReactorGenEq.
+Theorem C20_src_write_is_model : forall f r l, Reactor_write f (mkp r l) = POk None (mkp (rstep r (Put f)) l).
+Proof. exact write_src_eq. Qed.
+Theorem C20_src_partial_send : forall n r l, (1 <= n <= length (buffer r))%nat ->
+  Reactor_socket_write_ready (SendN n) (mkp r l) = POk (Some true) (mkp (write_ready (Accept n) r) l).
+Proof. exact write_ready_src_accept. Qed.
+Theorem C20_src_would_block : forall e r l, e = EAGAIN \/ e = EWOULDBLOCK ->
+  Reactor_socket_write_ready (SendErr e) (mkp r l) = POk (Some true) (mkp (write_ready WouldBlock r) l).
+Proof. exact write_ready_src_block. Qed.
+Theorem C20_src_zero_send_loses_connection : forall r l, Reactor_socket_write_ready (SendN 0) (mkp r l) = POk (Some false) (mkp r true).
+Proof. exact write_ready_src_zero. Qed.
+Theorem C20_src_other_error_propagates : forall r l, Reactor_socket_write_ready (SendErr EOTHER) (mkp r l) = PSockErr EOTHER (mkp r l).
+Proof. exact write_ready_src_error. Qed.
+Theorem C20_src_run_is_model : forall es, rrun_src es = rrun es.
+Proof. exact rrun_src_eq. Qed.
+Theorem C20_src_conservation : forall es, conserved (rrun_src es).
+Proof. exact src_conservation. Qed.
+Theorem C20_src_sent_is_prefix : forall es, exists rest, concat (puts (rrun_src es)) = sent (rrun_src es) ++ rest.
+Proof. exact src_sent_is_prefix. Qed.
+
 Print Assumptions C20_conservation.
 Print Assumptions C20_sent_is_prefix.
 Print Assumptions C20_drains.
@@ -38,3 +60,11 @@ Print Assumptions C20_progress.
 Print Assumptions C20_queue_readable_iff_nonempty.
 Print Assumptions C20_queue_get_never_empty.
 Print Assumptions C20_queue_fifo.
+Print Assumptions C20_src_write_is_model.
+Print Assumptions C20_src_partial_send.
+Print Assumptions C20_src_would_block.
+Print Assumptions C20_src_zero_send_loses_connection.
+Print Assumptions C20_src_other_error_propagates.
+Print Assumptions C20_src_run_is_model.
+Print Assumptions C20_src_conservation.
+Print Assumptions C20_src_sent_is_prefix.
